@@ -168,7 +168,7 @@ Example accept_example :
   ends (tx_st ax_ops) = [Some 0; Some 0; Some 0] /\ ends ax_st' = [Some 1; Some 1; Some 0].
 Proof.
   assert (E : tx_run ax_ops = Ok (tx_st ax_ops, tx_tr ax_ops)) by (vm_compute; reflexivity).
-  unfold tx_run in E. apply bind_ok in E as (st0 & H0 & E). exists st0. split; [exact H0|].
-  split; [eapply run_d_run; exact E|].
+  destruct (tx_hyps _ _ _ E) as (st0 & (_ & _ & Hi & _ & Hr & _) & _); [vm_compute; reflexivity|vm_compute; reflexivity|].
+  exists st0. split; [exact Hi|]. split; [eapply run_d_run; exact Hr|].
   split; [vm_compute; reflexivity|]. split; [vm_compute; reflexivity|]. split; vm_compute; reflexivity.
 Qed.
